@@ -157,6 +157,14 @@ class Ctx(object):
             return Sc.of(a)
         return asobj(a)
 
+    def cat(self, arrays):
+        """flatten and concatenate (to compare several outputs in one obligation)"""
+        if self.mode == 'conc':
+            return _np.concatenate([_np.asarray(a).reshape(-1) for a in arrays])
+        from .array import asobj, wrap, maxkind
+        xs = [asobj(a).reshape(-1) for a in arrays]
+        return wrap(_np.concatenate([x.plain() for x in xs]), 'c')
+
     def const_frac(self, num, den=1):
         if self.mode == 'conc':
             return num / den
